@@ -35,7 +35,7 @@ class C11(P.Property):
     real_stub = dict(deployment="real client Service + real server + websockets on the simulated loop/TCP; disk seam observing; no kills (C13)")
     assumptions = ["one service per run; operations before any create use an unknown sid"]
     probe_names = ["key_regen_refused", "encrypt_again_refused", "upload_before_create_refused", "search_before_upload_refused",
-                   "invalid_config_refused", "create_again_refused", "create_from_stored_config_refused", "reached_uploaded", "scheme_refused_input", "op_on_unknown_sid", "op_timed_out_under_stall", "service_deleted_on_server", "second_service_created", "via_commands", "create_with_taken_name_refused", "second_service_unusual_name"]
+                   "invalid_config_refused", "create_again_refused", "create_from_stored_config_refused", "reached_uploaded", "scheme_refused_input", "op_on_unknown_sid", "op_timed_out_under_stall", "service_deleted_on_server", "second_service_created", "via_commands", "create_with_taken_name_refused", "second_service_unusual_name", "network_op_while_server_down"]
 
     def setup(self):
         world.setup_frontend()
@@ -66,6 +66,8 @@ class C11(P.Property):
                 st["bad"] = rng.choice(BAD_CFG)
             if op == "search":
                 st["w"] = rng.choice(list(db) + [hx(b"absent")])
+            if op in ("upload_config", "upload_index", "search") and rng.random() < 0.07:
+                st["down"] = True  # the server is not running when this command is issued
             steps.append(st)
         knobs = dict(scheme=scheme, db=db, net=rng.choice([dict(lo=0.001, hi=0.05), dict(lo=0.001, hi=0.05, seg=3), dict(lo=0.01, hi=0.3, seg=2)]),
                      skew=rng.choice([1.0, 1.0, 0.5, 2.0]), bufsize=rng.choice([8192, 8192, 16]), gc_every=rng.choice([0, 0, 1, 2]),
@@ -239,7 +241,16 @@ class C11(P.Property):
                         if type(e2) is type(r[1]):
                             scheme_refusal = True
             elif op in ("upload_config", "upload_index", "search"):
-                if sid is not None:
+                down = bool(st.get("down")) and sid is not None and not knobs.get("stall_step") == si
+                if down:
+                    # fault: the server is not running.  The command cannot connect, is refused, and -- like every refused step -- leaves the
+                    # persisted client state as it was (in particular the two upload flags: nothing was learnt from the server)
+                    probes["network_op_while_server_down"] = 1
+                    run.sim.count("server_down_request")
+                    await asyncio.sleep(3 * max(1.0, knobs.get("skew", 1.0)))
+                    run.kill_server()
+                    await asyncio.sleep(0.2)
+                elif sid is not None:
                     # every network operation first connects and takes the two upload flags from the server's reported state
                     F["cu"], F["du"] = srv >= 1, srv == 2
                 stalled = knobs.get("stall_step") == si and sid is not None
@@ -258,6 +269,10 @@ class C11(P.Property):
                     exp = F["du"]
                     r = await host.search(cur, search_w)
                 run.sim.stall_once = None
+                if down:
+                    exp = False
+                    run.boot_server()
+                    await asyncio.sleep(0.05)
                 if stalled and run.sim.counters.get("stall", 0) > nst0 and r[0] == "exc":
                     # the one relaxed case: the stalled operation may fail (time-out); whether the server applied it is read from the
                     # server's disk, the client's flags are whatever it persisted (only the two upload flags may have moved)
